@@ -58,9 +58,10 @@ def _parse(out):
     return res
 
 
-def run_harnesses(crate_dir, target_dir, harnesses, jobs=16, timeout=3600, extra_flags=None, env=None):
+def run_harnesses(crate_dir, target_dir, harnesses, jobs=16, timeout=3600, extra_flags=None, env=None, harness_timeout=900):
     """harnesses: list of exact full harness names. Returns (results, raw_output, cmd, wall)."""
     cmd = ["cargo", "kani", "--target-dir", target_dir] + KANI_FLAGS + (extra_flags or []) + \
+          ["-Z", "unstable-options", "--harness-timeout", "%ds" % harness_timeout] + \
           ["-j", str(jobs), "--output-format", "terse", "--exact"]
     for h in harnesses:
         cmd += ["--harness", h]
@@ -111,7 +112,10 @@ def to_obligations(spec, res, out, info):
             # failures that are tool limits, not semantic
             descs = [c["description"] for c in r["failed_checks"]]
             toolish = [d for d in descs if re.search(r"unwinding assertion|is not currently supported|unsupported|not supported by Kani", d)]
-            if descs and len(toolish) == len(descs):
+            if not descs:
+                # CBMC died / was killed / ran out of memory: no named check failed
+                obs.append(Ob(status=UNDECIDED, time_s=r["time_s"], detail="tool error: harness reported FAILED without any failed check (solver crash, OOM or kill)", extra=extra, **common))
+            elif len(toolish) == len(descs):
                 obs.append(Ob(status=UNDECIDED, time_s=r["time_s"], detail="tool limit: " + "; ".join(descs), extra=extra, **common))
             else:
                 obs.append(Ob(status=FAILED, time_s=r["time_s"], detail="\n".join(r["raw"][-30:]), location=loc,
@@ -168,6 +172,7 @@ def playback(prop, ob, crate_dir, target_dir, lib_rel="src/lib.rs", timeout=900,
     with open(lib, "a") as f:
         f.write("\n#[cfg(test)]\nmod verif_playback {\n    use %s::*;\n%s\n}\n" % (modpath, test_src))
     cwd = os.path.dirname(os.path.dirname(lib)) if lib_rel.startswith("src/") else os.path.dirname(lib)
+    # harness module paths of in-crate harnesses start at the crate root too
     rc2, out2, wall2, to2 = run(["cargo", "kani", "playback", "-Z", "concrete-playback", "-Z", "function-contracts", "--", tname],
                                 cwd=cwd, timeout=600, env=dict(env or {}, CARGO_TARGET_DIR=target_dir + "_pb"))
     native_failed = "test result: FAILED" in out2
